@@ -8,21 +8,33 @@
 (* printed ("VERDICT") and kept in the state; AllAccepted is checked as an *)
 (* invariant (with -continue every rejected event is reported).            *)
 (***************************************************************************)
-EXTENDS Contracts, Json, IOUtils
+EXTENDS Contracts, Oracles, Json, IOUtils
 
 Trace == JsonDeserialize(IOEnv.TRACE_FILE)
+
+(* An optional first record  [op |-> "globals", gm |-> <<model, ...>>]      *)
+(* carries tensor models that are shared by many events (the oracle        *)
+(* quantities - RSPT wavefunctions, amplitude tables ... - are then built  *)
+(* once); an event refers to them by  [ref |-> k].                         *)
+HasGlobals == Len(Trace) >= 1 /\ Trace[1].op = "globals"
+Globals == IF HasGlobals THEN Trace[1].gm ELSE <<>>
+Prepared == TLCEval([k \in 1..Len(Globals) |-> Prepare(Globals[k])])
+First == IF HasGlobals THEN 2 ELSE 1
+ModelOf(ev, m) ==
+  LET x == ev.models[m] IN
+  IF "ref" \in DOMAIN x THEN Prepared[x.ref] ELSE Prepare(x)
 
 VARIABLES e, m, st, out
 vars == <<e, m, st, out>>
 
-Init == /\ e \in 1..Len(Trace)
+Init == /\ e \in First..Len(Trace)
         /\ m \in 1..Len(Trace[e].models)
         /\ st = "todo"
         /\ out = <<>>
 
 Judge == /\ st = "todo"
          /\ st' = "done"
-         /\ out' = Contract(Trace[e], WithTables(Trace[e].models[m], Trace[e].tabhint))
+         /\ out' = Contract(Trace[e], WithTables(ModelOf(Trace[e], m), Trace[e].tabhint))
          /\ UNCHANGED <<e, m>>
          /\ PrintT(<<"VERDICT", Trace[e].tid, m, out'>>)
 
